@@ -27,7 +27,7 @@ import (
 func TestMain(m *testing.M) {
 	logrus.SetOutput(io.Discard)
 	logrus.SetLevel(logrus.PanicLevel)
-	ev.C().Rule("rapid state machine over a real CachedCloudProvider with a scripted CloudProvider (per call: full / partial / empty / error with partial data; batch limit 1, 2 or 5) and an owned refresh ticker: actions submit(1..3 sources) / peek / tick(real now + k*10min) / emit / tickSlowProvider (refresh whose provider calls block) / release (the blocked calls return, possibly after the entries were evicted as idle). TTL 15 min, negative TTL 5 min, idle 25 min so that every comparison has >= 5 min of margin against seconds of real drift. Oracle: answer-per-request multiset, cache model (never forgets good data), refresh and eviction sets, cache-size gauges. Non-trivial = a success followed by a failed refresh of the same source, or >= 2 sources in one provider call, or a refresh answer arriving after its entry was evicted")
+	ev.C().Rule("rapid state machine over a real CachedCloudProvider with a scripted CloudProvider (per call: full / partial / empty / error with partial data; batch limit 1, 2 or 5; lookup limiter unlimited or 10^6/s with burst 1, 2 or 15) and an owned refresh ticker: actions submit(1..3 sources) / peek / tick(real now + k*10min) / emit / tickSlowProvider (refresh whose provider calls block) / release (the blocked calls return, possibly after the entries were evicted as idle). TTL 15 min, negative TTL 5 min, idle 25 min so that every comparison has >= 5 min of margin against seconds of real drift. Oracle: answer-per-request multiset, cache model (never forgets good data), refresh and eviction sets, cache-size gauges. Non-trivial = a success followed by a failed refresh of the same source, or >= 2 sources in one provider call, or a refresh answer arriving after its entry was evicted")
 	vt.Main(m)
 }
 
@@ -121,7 +121,12 @@ func TestInstanceCacheHistories(t *testing.T) {
 		prov := &provider{max: rapid.SampledFrom([]int{1, 2, 5}).Draw(t, "max-batch")}
 		prov.script = rapid.SliceOfN(rapid.SampledFrom([]outcome{full, full, partial, empty, failPartial, failEmpty}), 8, 8).Draw(t, "provider-script")
 		clk := rig.NewOwnedClock(time.Now())
-		ccp := cloudprovider.NewCachedCloudProvider(logrus.StandardLogger(), rate.NewLimiter(rate.Inf, 1), prov,
+		// the lookup rate limiter: unlimited, or a fast finite one whose burst is below, at or above the provider's batch limit
+		limiter := rate.NewLimiter(rate.Inf, 1)
+		if b := rapid.SampledFrom([]int{0, 1, 2, 15}).Draw(t, "limiter-burst"); b > 0 {
+			limiter = rate.NewLimiter(rate.Limit(1e6), b)
+		}
+		ccp := cloudprovider.NewCachedCloudProvider(logrus.StandardLogger(), limiter, prov,
 			gostatsd.CacheOptions{CacheRefreshPeriod: refresh, CacheEvictAfterIdlePeriod: idle, CacheTTL: ttl, CacheNegativeTTL: negTTL})
 		st := fakes.NewStatser()
 		ctx, cancel := context.WithCancel(clock.Context(context.Background(), clk))
